@@ -6,6 +6,7 @@ CONSTANTS
   Ops = {"TRead","Restart"}
   Depth = 5
   Recheck = TRUE
+  DropInFlight = TRUE
   MaxSeq = 99
   MaxRestart = 99
   Sample = FALSE
